@@ -140,6 +140,39 @@ def match_finding(f, case):
     return False
 
 
+def repo_test_traces(check):
+    """code -> spec on the repository's own tests: run them with the hook recording scope events and let
+    TLC validate every scope tree against the dynamic mode / chaining discipline (spec/Trace_Frames.tla)"""
+    import json
+    import os
+    import shutil
+    import subprocess
+    import tempfile
+    repo = os.environ.get('GLOM_REPO', '/repo')
+    scratch = tempfile.mkdtemp(prefix='glomverif_repotests_')
+    try:
+        out = os.path.join(scratch, 'rows.ndjson')
+        env = dict(os.environ, GLOM_VERIF='1', VERIF_TRACE_OUT=out,
+                   PYTHONPATH=repo + os.pathsep + os.path.join(vlib.VERIF, 'harness'))
+        p = subprocess.run(['/venv/bin/python', '-m', 'pytest', '-q', '-x', '-p', 'no:cacheprovider', '-p', 'verif_trace_plugin',
+                            '--deselect', 'glom/test/test_cli.py::test_main', 'glom/test'],
+                           cwd=repo, env=env, capture_output=True, text=True, timeout=900)
+        if not os.path.exists(out):
+            raise vlib.MachineryError('the repository tests did not produce a trace file:\n' + p.stdout[-800:] + p.stderr[-800:])
+        rows = [json.loads(l) for l in open(out)]
+    finally:
+        shutil.rmtree(scratch, ignore_errors=True)
+    if len(rows) < 100:
+        raise vlib.MachineryError('only %d scope trees recorded from the repository tests' % len(rows))
+    rejects = vlib.validate_rows(check, 'Trace_Frames', rows, 'repo-tests', chunk=200)
+    for row, rej in rejects:
+        check.violation(dict(events=row['events'][:40], clause=rej['clause']),
+                        'a scope tree recorded while running the repository tests breaks the %s discipline' % rej['clause'],
+                        matcher=match_finding)
+    check.extra['repo_test_scope_trees'] = len(rows)
+    check.extra['repo_test_events'] = sum(len(r['events']) for r in rows)
+
+
 def run_mutants(check):
     """the specification's own mutants: the law must be violated by the historic mechanism"""
     res = vlib.run_tlc('MC_C08', cfg='MC_C08_modeleak', constants=dict(MaxDepth=2, SecondDepth=1, Replay='TRUE'))
@@ -170,6 +203,7 @@ def main(tier, seed):
     check.extra['drift_replayed'] = ndrift
     run_mutants(check)
     check.extra['recorded_rows'] = record(check, {'quick': 3000, 'thorough': 30000}[tier], seed)
+    repo_test_traces(check)
     import c08_shape
     c08_shape.run(check, tier, seed)
     check.assumptions += ['raw tuples / dicts under Group are accumulators and are generated only outside Group; a STOP leaf is generated only directly under Group',
